@@ -11,7 +11,8 @@ from harness import core
 
 
 def main():
-    import logging
+    import logging, warnings
+    warnings.simplefilter('ignore')
     logging.disable(logging.CRITICAL)      # deepdiff logs every tolerated delta error; checks that need them re-enable logging locally
     ap = argparse.ArgumentParser()
     ap.add_argument('pid')
